@@ -57,9 +57,14 @@ func verifCheckSet(t *testing.T, keys []string, chars *ValidChars, probes []stri
 
 func TestVerifBounded_Trie(t *testing.T) {
 	cases, sets := 0, 0
+	thorough := os.Getenv("VERIF_TIER") == "thorough"
 	// CIDR flavour
-	cw := verifWords("01", 4)
-	cp := verifWords("01", 5)
+	cl := 4
+	if thorough {
+		cl = 5
+	}
+	cw := verifWords("01", cl)
+	cp := verifWords("01", cl+1)
 	for i := 0; i < len(cw); i++ {
 		cases += verifCheckSet(t, []string{cw[i]}, ValidCidrChars, cp, "cidr")
 		sets++
@@ -81,13 +86,24 @@ func TestVerifBounded_Trie(t *testing.T) {
 		sets++
 	}
 	for i := 0; i < len(dw); i += 1 {
-		for j := i + 1; j < len(dw); j += 3 {
+		step := 3
+		if thorough {
+			step = 1
+		}
+		for j := i + 1; j < len(dw); j += step {
 			cases += verifCheckSet(t, []string{dw[i], dw[j]}, dchars, dp, "domain")
 			sets++
 		}
 	}
 	seed := uint64(88172645463325252)
-	for s := 0; s < 6000; s++ {
+	nsets := 6000
+	if thorough {
+		nsets = 60000
+		var sv uint64
+		fmt.Sscan(os.Getenv("VERIF_SEED"), &sv)
+		seed ^= (sv + 1) * 0x9E3779B97F4A7C15
+	}
+	for s := 0; s < nsets; s++ {
 		n := 3 + s%3
 		var ks []string
 		for q := 0; q < n; q++ {
@@ -108,5 +124,9 @@ func TestVerifBounded_Trie(t *testing.T) {
 		cases += verifCheckSet(t, uk, dchars, dp, "domain")
 		sets++
 	}
-	fmt.Fprintf(os.Stdout, "BOUNDED cases=%d distinct=%d bound=\"cidr: all sets of <=3 keys of length <=4 over {0,1}, probes of length <=5; domain: alphabet {a,z,1,-,.,^,_}, all single keys and a third of all key pairs of length <=3 plus 6000 seeded sets of 3..5 keys, probes of length <=4\"\n", cases, sets)
+	pairs := "a third of all key pairs"
+	if thorough {
+		pairs = "all key pairs"
+	}
+	fmt.Fprintf(os.Stdout, "BOUNDED cases=%d distinct=%d bound=\"cidr: all sets of <=3 keys of length <=%d over {0,1}, probes of length <=%d; domain: alphabet {a,z,1,-,.,^,_}, all single keys and %s of length <=3 plus %d seeded sets of 3..5 keys, probes of length <=4\"\n", cases, sets, cl, cl+1, pairs, nsets)
 }
